@@ -230,8 +230,34 @@ func ruleBgCtx(c *Ctx, r *R, names ...string) {
 		}
 		okClose := false
 		detail := "the cancel function of the goroutines' context is not stored in the returned stream"
+		var retT types.Type
+		if ret != nil {
+			retT = ret.Type()
+		}
+		if stored == "" {
+			// the returned stream is built by a constructor helper that is handed the cancel function
+			// (out := newBatchStream(bgCancel)): a store, anywhere below, of the cancel function into a field of the type returned
+			if wt := returnedWrapperType(bi.fn); wt != nil {
+				for _, d := range deepInstrs(bi.fn, 2) {
+					st, ok := d.in.(*ssa.Store)
+					if !ok {
+						continue
+					}
+					fa, ok := st.Addr.(*ssa.FieldAddr)
+					if !ok || !types.Identical(origType(derefType(fa.X.Type())), origType(derefType(wt))) {
+						continue
+					}
+					for _, lf := range valueLeaves(st.Val, d.calls, 0) {
+						if lf.v == bi.cancel {
+							stored = fieldName(fa.X.Type(), fa.Field)
+							retT = wt
+						}
+					}
+				}
+			}
+		}
 		if stored != "" {
-			closeFn := c.fn(relOfPkg(bi.fn.Pkg) + "." + typeShort(ret.Type()) + ".Close")
+			closeFn := c.fn(relOfPkg(bi.fn.Pkg) + "." + typeShort(retT) + ".Close")
 			detail = "Close of the returned stream does not call " + stored + " before waiting"
 			if closeFn != nil {
 				var cancelIn, waitIn ssa.Instruction
@@ -741,4 +767,39 @@ func selfAccountedGoroutines(h *ssa.Function) []*ssa.Function {
 		}
 	}
 	return nil
+}
+
+// returnedWrapperType: the concrete (pointer-to-struct) type of what fn returns, behind interface conversions - whether the
+// value is a literal of fn or the result of a constructor helper.
+func returnedWrapperType(fn *ssa.Function) types.Type {
+	var out types.Type
+	instrs(fn, func(_ *ssa.BasicBlock, _ int, in ssa.Instruction) {
+		ret, ok := in.(*ssa.Return)
+		if !ok {
+			return
+		}
+		for _, res := range ret.Results {
+			v := res
+			for {
+				switch x := v.(type) {
+				case *ssa.MakeInterface:
+					v = x.X
+					continue
+				case *ssa.ChangeInterface:
+					v = x.X
+					continue
+				}
+				break
+			}
+			v = resolveVal(v)
+			if pt, ok := v.Type().Underlying().(*types.Pointer); ok {
+				if nt, ok := pt.Elem().(*types.Named); ok {
+					if _, isSt := nt.Underlying().(*types.Struct); isSt {
+						out = v.Type()
+					}
+				}
+			}
+		}
+	})
+	return out
 }
